@@ -412,8 +412,13 @@ def run_case(case):
             elif name == "atom_slice":
                 n = src.t.n_atoms
                 idx = sorted(set([(r + 3 * i) % n for i in range(max(3, n // 2))]))
+                if r % 7 == 0:
+                    idx = list(range(n))          # every atom kept: still a new, independent object
                 tag = "atom_slice-inplace" if flag else "atom_slice"
+                parent_top = src.t.topology
                 out = src.t.atom_slice(idx, inplace=flag)
+                if not flag and out.topology is parent_top:
+                    viol.append((tag + "/shares-topology", "the result of atom_slice(inplace=False) holds the source's Topology object (editing one edits the other)"))
                 tgt = src if flag else _copy.copy(src)
                 if flag and out is not src.t:
                     viol.append((tag + "/identity", "inplace=True did not return self"))
@@ -426,9 +431,12 @@ def run_case(case):
             elif name == "remove_solvent":
                 tag = "remove_solvent-inplace" if flag else "remove_solvent"
                 keep = [a.index for a in src.t.topology.atoms if a.residue.name not in ("HOH", "CL")]
-                if len(keep) in (0, src.t.n_atoms):
+                if len(keep) == 0:
                     continue
+                parent_top = src.t.topology
                 out = src.t.remove_solvent(inplace=flag)
+                if not flag and out.topology is parent_top:
+                    viol.append((tag + "/shares-topology", "the result of remove_solvent(inplace=False) holds the source's Topology object"))
                 tgt = src if flag else _copy.copy(src)
                 tgt.xyz = src.xyz[:, keep]
                 tgt.atoms = tuple(np.array(src.atoms, dtype=object)[keep])
